@@ -99,7 +99,7 @@ def case_generator(name, opts, dtype, backend):
     shim.set_backend(backend)
     fails = []
     states = trans = 0
-    tag = f"{name}:{','.join(f'{k}={v}' for k, v in sorted(opts.items()) if k not in ('grid', 'buffers', 'midstep'))}"
+    tag = f"{name}:{','.join(f'{k}={v}' for k, v in sorted(opts.items()) if k not in ('buffers', 'midstep'))}"
     outcomes = 0
     try:
         other_t = np.float32 if real_t == np.float64 else np.float64
